@@ -131,12 +131,61 @@ func (a *answers) x(vals []float64) int {
 	return i
 }
 
-func assumeOf(run *Run, unit string) (benchmath.Assumption, string) {
-	as := run.units.GetAssumption(unit)
-	if as == benchmath.AssumeExact {
-		return as, "e"
+// unionMeta is the unit metadata of the whole run, read by this harness from the generated
+// files themselves (every `Unit <unit> k=v ...` line of every input, in argument order; the
+// first value of a (tidied unit, key) stands, as the format documents). It is independent of
+// benchfmt.Files / Reader: "the unit's statistical assumption" of the property is judged by it.
+func unionMeta(c *Case) map[[2]string]string {
+	content := map[string]string{}
+	for _, f := range c.Files {
+		content[f.Name] = f.Content
 	}
-	return as, "n"
+	m := map[[2]string]string{}
+	for _, a := range c.Args {
+		path := a
+		if i := strings.Index(a, "="); i >= 0 {
+			path = a[i+1:]
+		}
+		for _, line := range strings.Split(content[path], "\n") {
+			fs := strings.Fields(line)
+			if len(fs) < 2 || fs[0] != "Unit" {
+				continue
+			}
+			unit := tidyOf(fs[1])
+			for _, kv := range fs[2:] {
+				eq := strings.IndexByte(kv, '=')
+				if eq <= 0 {
+					continue
+				}
+				k := [2]string{unit, kv[:eq]}
+				if _, ok := m[k]; !ok {
+					m[k] = kv[eq+1:]
+				}
+			}
+		}
+	}
+	return m
+}
+
+func encUnionMeta(m map[[2]string]string) string {
+	var parts []string
+	for k, v := range m {
+		parts = append(parts, hx.HexS(k[0])+":"+hx.HexS(k[1])+":"+hx.HexS(v))
+	}
+	sort.Strings(parts)
+	if len(parts) == 0 {
+		return "-"
+	}
+	return strings.Join(parts, ",")
+}
+
+// assumeOf: the assumption the property demands for a unit (from the union of all files'
+// metadata), not the one the implementation's accumulated map happens to give.
+func assumeOf(run *Run, unit string) (benchmath.Assumption, string) {
+	if run.umAll[[2]string{tidyOf(unit), "assume"}] == "exact" {
+		return benchmath.AssumeExact, "e"
+	}
+	return benchmath.AssumeNothing, "n"
 }
 
 func sampleOf(run *Run, vals []float64) *benchmath.Sample {
